@@ -161,6 +161,7 @@ class World:
         self.step_no = 0
         pcfg.ID_DIGEST_SIZE = 8
         pcfg.RUNTIME_TYPE_CHECK = False
+        pcfg.TRACE_LOGGING = bool(cfg.get("trace_logging", False))
         FAULTS.disarm()
         if len(NODE_REGISTRY) != 0:
             raise HarnessError("registry not pristine")
@@ -205,6 +206,25 @@ class World:
             raise HarnessError(f"generated hierarchy does not define: {type(e).__name__}: {e}\n{src}") from None
         self.mod = mod
         self.src = src
+        return "ok"
+
+    def op_redefine(self, op: dict[str, Any]) -> str:
+        """The hierarchy is defined again in the same module (class factory called twice, reloaded notebook cell) with
+        changed field lists: same module and qualified names, different classes."""
+        if self.mod is None:
+            raise SkipOp("nothing defined")
+        self.h = op["hier"]
+        src = render(self.h)
+        body = src[src.index("@dataclass", src.index("class GFalsy")) :] if "class G0" in src else ""
+        try:
+            exec(compile(body, "<c12 generated>", "exec"), self.mod.__dict__)
+        except Exception as e:  # noqa: BLE001
+            raise HarnessError(f"redefinition does not define: {type(e).__name__}: {e}\n{body}") from None
+        self.src = src
+        self.inst.clear()
+        self.inst_cls.clear()
+        self.used = []
+        self.stats.probes["hierarchy_redefined"] += 1
         return "ok"
 
     def cls(self, name: str) -> Any:
@@ -285,7 +305,8 @@ class World:
             self.mark(cname)
             self.inst[op["inst"]] = o
             self.inst_cls[op["inst"]] = cname
-            self.check_instance(o, cname, fl, "instantiate", sample=True)
+            if op.get("check", True):
+                self.check_instance(o, cname, fl, "instantiate", sample=True)
             return "ok"
         if what == "get_property_fields":
             self.mark(cname)
@@ -560,7 +581,8 @@ class Gen:
                 pre.append({"op": "event", "cls": cn, "what": "get_child_fields"})
             ni += 1
             inst = f"i{ni}"
-            evs = pre + [{"op": "event", "cls": cn, "what": "instantiate", "inst": inst, "vals": self.values(cn)}]
+            # without the sampled check the scheduled accessor events below are really the first calls on this class
+            evs = pre + [{"op": "event", "cls": cn, "what": "instantiate", "inst": inst, "vals": self.values(cn), "check": r.random() < 0.4}]
             for what in r.sample(["get_properties", "get_child_nodes", "get_child_nodes_with_field", "iter_child_fields", "children", "to_properties_dict"], r.choice([1, 2, 4, 6])):
                 evs.append({"op": "event", "cls": cn, "what": what, "inst": inst, "flags": {k: r.random() < 0.5 for k in FLAGS}, "sort": r.random() < 0.5})
             events.append(evs)
@@ -583,10 +605,27 @@ class Gen:
                 ni += 1
                 do({"op": "event", "cls": cn, "what": "instantiate", "inst": f"i{ni}", "vals": self.values(cn)})
         do({"op": "cube"})
+        if w.cfg.get("redefine"):
+            # the same names defined again with other field lists; everything must follow the NEW definitions
+            h2 = self.hierarchy()
+            h2["postponed"] = w.h["postponed"]
+            keep = len(w.h["classes"])
+            while len(h2["classes"]) < keep:
+                h2 = self.hierarchy()
+                h2["postponed"] = w.h["postponed"]
+            do({"op": "redefine", "hier": h2})
+            for c in w.h["classes"]:
+                cn = c["name"]
+                ni += 1
+                do({"op": "event", "cls": cn, "what": "instantiate", "inst": f"i{ni}", "vals": self.values(cn), "check": r.random() < 0.5})
+                for what in r.sample(["get_properties", "get_child_nodes", "get_child_nodes_with_field", "iter_child_fields", "to_properties_dict"], 2):
+                    do({"op": "event", "cls": cn, "what": what, "inst": f"i{ni}", "flags": {k: r.random() < 0.5 for k in FLAGS}, "sort": r.random() < 0.5})
+            do({"op": "cube"})
 
 
 def make_config(rseed: int, prop: str, tier: str, faults: bool) -> dict[str, Any]:
-    return {"machine": NAME, "prop": prop}
+    r = Rng(rseed).s("config")
+    return {"machine": NAME, "prop": prop, "trace_logging": r.random() < 0.3, "redefine": r.random() < 0.35}
 
 
 def run(cfg: dict[str, Any], prop: str, rseed: int | None = None, ops: list[dict[str, Any]] | None = None, peer: Any = None) -> dict[str, Any]:
